@@ -278,6 +278,150 @@ pub fn run(run: &mut Run) {
         }
     }
 
+    // ---- dense small values: every pair of a contiguous range (mid-range defects: truncating casts, tables, fast paths)
+    let d: i64 = if thorough { 400 } else { 33 };
+    for ty in ["int", "uint"] {
+        run.sub(&format!("dense-{}", ty));
+        let (lo, hi) = if ty == "int" { (ilo, ihi) } else { (ulo, uhi) };
+        for (oi, op) in OPS.iter().enumerate() {
+            for i in 0..=(2 * d) {
+                for j in 0..=(2 * d) {
+                    if !run.take() {
+                        continue;
+                    }
+                    let (a, b, va, vb) = if ty == "int" {
+                        ((i - d) as i128, (j - d) as i128, Value::Int(i - d), Value::Int(j - d))
+                    } else {
+                        (i as i128, j as i128, Value::UInt(i as u64), Value::UInt(j as u64))
+                    };
+                    let mut ctx = Context::default();
+                    ctx.add_variable_from_value("a", va);
+                    ctx.add_variable_from_value("b", vb);
+                    let got = subj::exec(&progs[oi], &ctx);
+                    run.trans(1);
+                    let src = format!("a {} b  [a={}, b={}, {}]", op, a, b, ty);
+                    check(run, "dense", ty, op, a, b, &got, lo, hi, &src);
+                }
+            }
+        }
+    }
+    // ---- dense range against the boundary set, both orders
+    let d2: i64 = if thorough { 130 } else { 16 };
+    for ty in ["int", "uint"] {
+        run.sub(&format!("dense-x-boundary-{}", ty));
+        let (lo, hi) = if ty == "int" { (ilo, ihi) } else { (ulo, uhi) };
+        let n = if ty == "int" { is.len() } else { us.len() };
+        for (oi, op) in OPS.iter().enumerate() {
+            for i in 0..=(2 * d2) {
+                for j in 0..n {
+                    for order in 0..2 {
+                        if !run.take() {
+                            continue;
+                        }
+                        let (x, y, vx, vy) = if ty == "int" {
+                            ((i - d2) as i128, is[j] as i128, Value::Int(i - d2), Value::Int(is[j]))
+                        } else {
+                            (i as i128, us[j] as i128, Value::UInt(i as u64), Value::UInt(us[j]))
+                        };
+                        let (a, b, va, vb) = if order == 0 { (x, y, vx, vy) } else { (y, x, vy, vx) };
+                        let mut ctx = Context::default();
+                        ctx.add_variable_from_value("a", va);
+                        ctx.add_variable_from_value("b", vb);
+                        let got = subj::exec(&progs[oi], &ctx);
+                        run.trans(1);
+                        let src = format!("a {} b  [a={}, b={}, {}]", op, a, b, ty);
+                        check(run, "dense-x-boundary", ty, op, a, b, &got, lo, hi, &src);
+                    }
+                }
+            }
+        }
+    }
+    // ---- three operands: every intermediate result is range-checked (no widening, no reassociation, no folding)
+    let ti: Vec<i64> = if thorough {
+        vec![0, 1, -1, 2, -2, 3, 7, -7, 10, 3037000500, -3037000500, 1 << 31, 1 << 32, -(1 << 32), 1 << 62, -(1 << 62), i64::MAX, i64::MAX - 1, i64::MIN, i64::MIN + 1, i64::MAX / 2 + 1, i64::MIN / 2 - 1, 4611686018427387905, 6442450941]
+    } else {
+        vec![0, 1, -1, 2, -2, 3, 3037000500, 1 << 32, 1 << 62, i64::MAX, i64::MAX - 1, i64::MIN, i64::MIN + 1, i64::MAX / 2 + 1]
+    };
+    let tu: Vec<u64> = if thorough {
+        vec![0, 1, 2, 3, 7, 10, 4294967296, 4294967295, 6074000999, 1 << 62, 1 << 63, (1 << 63) - 1, (1 << 63) + 1, u64::MAX, u64::MAX - 1, u64::MAX / 2, u64::MAX / 2 + 1, u64::MAX / 3, 6148914691236517205]
+    } else {
+        vec![0, 1, 2, 3, 4294967296, 1 << 63, (1 << 63) - 1, u64::MAX, u64::MAX - 1, u64::MAX / 2 + 1, u64::MAX / 3]
+    };
+    fn prec(op: &str) -> u8 {
+        if op == "+" || op == "-" { 1 } else { 2 }
+    }
+    // (source, op1, op2, left-grouped?)
+    let mut shapes: Vec<(String, Program, &str, &str, bool)> = vec![];
+    for op1 in OPS.iter() {
+        for op2 in OPS.iter() {
+            for sh in 0..3 {
+                let (src, left) = match sh {
+                    0 => (format!("(a {} b) {} c", op1, op2), true),
+                    1 => (format!("a {} (b {} c)", op1, op2), false),
+                    _ => (format!("a {} b {} c", op1, op2), prec(op2) <= prec(op1)),
+                };
+                let p = Program::compile(&src).expect("compile triple");
+                shapes.push((src, p, op1, op2, left));
+            }
+        }
+    }
+    for ty in ["int", "uint"] {
+        run.sub(&format!("triple-{}", ty));
+        let signed = ty == "int";
+        let (lo, hi) = if signed { (ilo, ihi) } else { (ulo, uhi) };
+        let n = if signed { ti.len() } else { tu.len() };
+        for (src, p, op1, op2, left) in shapes.iter() {
+            for i in 0..n {
+                for j in 0..n {
+                    for k in 0..n {
+                        if !run.take() {
+                            continue;
+                        }
+                        let (a, b, c, va, vb, vc) = if signed {
+                            (ti[i] as i128, ti[j] as i128, ti[k] as i128, Value::Int(ti[i]), Value::Int(ti[j]), Value::Int(ti[k]))
+                        } else {
+                            (tu[i] as i128, tu[j] as i128, tu[k] as i128, Value::UInt(tu[i]), Value::UInt(tu[j]), Value::UInt(tu[k]))
+                        };
+                        let mut ctx = Context::default();
+                        ctx.add_variable_from_value("a", va);
+                        ctx.add_variable_from_value("b", vb);
+                        ctx.add_variable_from_value("c", vc);
+                        let got = subj::exec(p, &ctx);
+                        run.trans(1);
+                        run.validated();
+                        let exp = if *left {
+                            expect_int(op1, a, b, lo, hi, signed).and_then(|r| expect_int(op2, r, c, lo, hi, signed))
+                        } else {
+                            expect_int(op2, b, c, lo, hi, signed).and_then(|r| expect_int(op1, a, r, lo, hi, signed))
+                        };
+                        // non-trivial: an intermediate overflows although the widened total would fit, or vice versa
+                        if exp.is_err() {
+                            run.nontrivial();
+                        }
+                        let exp_tag = match &exp {
+                            Ok(_) => "value".to_string(),
+                            Err(e) => e.tag0().to_string(),
+                        };
+                        run.class(&format!("triple:{}:{}{}:{}", ty, op1, op2, got.tag()), || json!({"src": src, "a": a.to_string(), "b": b.to_string(), "c": c.to_string(), "got": got.show()}));
+                        let ok = match (&exp, &got) {
+                            (Ok(r), Out::Val(MV::Int(g))) if signed => *r == *g as i128,
+                            (Ok(r), Out::Val(MV::Uint(g))) if !signed => *r == *g as i128,
+                            (Err(e), Out::Err(g)) => ec_ok(e, g),
+                            _ => false,
+                        };
+                        if !ok {
+                            run.fail(
+                                &format!("C08|triple|{}|{}{}|{}|expect={}|got={}", ty, op1, op2, if *left { "left" } else { "right" }, exp_tag, got.tag()),
+                                format!("{} with a={}, b={}, c={} : expected {:?}, got {}", src, a, b, c, exp, got.show()),
+                                json!({"src": src, "a": a.to_string(), "b": b.to_string(), "c": c.to_string()}),
+                            );
+                        }
+                    }
+                }
+            }
+        }
+    }
+
     // ---- mixing int / uint / double is an error, not a coercion
     run.sub("mixed");
     let mi: Vec<Value> = [0i64, 1, -1, 2, i64::MAX, i64::MIN].iter().map(|x| Value::Int(*x)).collect();
